@@ -11,8 +11,8 @@ import Sismic.Model.Plan
   contract evaluations, executed code fragments, meta-events.  The real interpreter yields the same
   log through a logging `Evaluator` subclass and an attached listener (public extension points).
 * Generic in the evaluator `E : Evaluator σ` (any code semantics; guards and contract conditions
-  are pure, executed code may change `σ` and send events) and in the listeners
-  (`deliver`, which may change the interpreter itself and an arbitrary outside world `ω`).
+  are pure, executed code may change `σ` and send events) and in the listeners (`deliver`, which
+  may change an arbitrary outside world `ω`, raise, and queue events on the interpreter).
 -/
 namespace Sismic
 
@@ -168,8 +168,11 @@ structure Env (σ ω : Type) where
   chart : Chart
   E : Evaluator σ
   ignoreContract : Bool := false
-  /-- `listener(event)` for the listener with the given id -/
-  deliver : Nat → Event → M σ ω Unit
+  /-- `listener(event)` for the listener with the given id: it sees the meta-event, the
+      interpreter's step time and the outside world; it may raise, change the outside world and
+      have events queued (as external events) on the interpreter itself — nothing else
+      (DESIGN.md §2: code does not reach around the public API to mutate the interpreter). -/
+  deliver : Nat → Event → Int → ω → Except Err Unit × ω × List Event
   stabFuel : Nat := 1000
 
 variable (env : Env σ ω)
@@ -182,10 +185,15 @@ def queueEvent (internal : Bool) (e : Event) : M σ ω Unit :=
     else { st with extQ := queueInsert due e st.extQ })
 
 /-- `_raise_event(MetaEvent(...))` -/
+def callListener (m : Event) (l : Nat) : M σ ω Unit := fun rs =>
+  let (r, w, qs) := env.deliver l m rs.st.time rs.world
+  let st := qs.foldl (fun st e => { st with extQ := queueInsert (st.time + e.delay) e st.extQ }) rs.st
+  (r, { rs with st := st, world := w })
+
 def raiseMeta (m : Event) : M σ ω Unit := do
   M.emit (.metaEv m)
   let st ← M.get
-  M.forEach (fun l => env.deliver l m) st.listeners
+  M.forEach (callListener env m) st.listeners
 
 /-- `_raise_event(event)` for what code sent -/
 def raiseSent : Sent → M σ ω Unit
